@@ -1,6 +1,7 @@
 import Proofs.C05
 import Proofs.TieAccept
 import Proofs.TieBuild
+import Proofs.TieLoopTail
 #print axioms PV.Proofs.C05.kt_stays_zero
 #print axioms PV.Proofs.C05.zero_temp_accept
 #print axioms PV.Proofs.C05.C05_monotone
@@ -15,3 +16,6 @@ import Proofs.TieBuild
 #print axioms PV.Proofs.Tie.build_inner_tie
 #print axioms PV.Proofs.Tie.build_kt_ratio_tie
 #print axioms PV.Proofs.Tie.build_loops_tie
+#print axioms PV.Proofs.Tie.declared_translated_looptail
+#print axioms PV.Proofs.Tie.loop_tail_tie
+#print axioms PV.Proofs.Tie.loop_tail_frame
